@@ -126,3 +126,20 @@ Theorem C12_source_translated :
 Proof. exact source_translated. Qed.
 Print Assumptions C12_source_translated.
 
+
+Theorem S_radial_edge_is_source :
+  forall (NN : Num) (fsin fcos : carrier NN -> carrier NN) (dtheta : carrier NN) (index : nat)
+    (r1 r2 : carrier NN), gen_radial_edge NN fsin fcos dtheta index r1 r2 = radial_edge NN fsin
+    fcos dtheta index r1 r2.
+Proof. exact radial_edge_is_source. Qed.
+Print Assumptions S_radial_edge_is_source.
+
+Theorem S_from_radial_is_source :
+  forall (NN : Num) (fsin fcos : carrier NN -> carrier NN) (pi_ : carrier NN) (points : list
+    (carrier NN)), from_radial NN pi_ fsin fcos points = map (fun ir : nat * (carrier NN *
+    carrier NN) => gen_radial_edge NN fsin fcos (gen_radial_dtheta NN pi_ points) (fst ir) (fst
+    (snd ir)) (snd (snd ir))) (combine (seq 0 (length points)) (combine points (rotate1
+    points))).
+Proof. exact from_radial_is_source. Qed.
+Print Assumptions S_from_radial_is_source.
+
